@@ -481,3 +481,90 @@ import procinv_util as _pv8
 MODULE = _pv8.listext_module("C06")
 THEOREMS = THEOREMS + [t for t in _pv8.LISTEXT_LAWS + _pv8.LISTEXT_LAWS_C06 + _pv8.LISTEXT["C06"] if t not in THEOREMS]
 META["note"] = META["note"] + _pv8.LISTEXT_NOTE + _pv8.LISTEXT_NOTE_C06
+
+
+# wave 12 (work package env-installs): prepare_eval re-establishes EnvInv; the C06 history theorem starts from the
+# invariants of the INITIAL state only (Lemmas/CompileEnvmap*.lean, PrepareEnv*.lean, Proofs/C06.lean section FromInitial)
+THEOREMS = THEOREMS + [t for t in [
+    "Marwood.Vm.EnvCode.append",
+    "Marwood.Vm.newEnvmap_childOf",
+    "Marwood.Vm.lambdaParts_child",
+    "Marwood.Vm.finishLambda_env",
+    "Marwood.Vm.envOKF_all",
+    "Marwood.Vm.compileTop_envCode",
+    "Marwood.Vm.entryLam_envmap",
+    "Marwood.Vm.childOf_empty",
+    "Marwood.Lemmas.Good.loaded_immTF",
+    "Marwood.Lemmas.Good.loaded_sitesFB",
+    "Marwood.Lemmas.Good.loaded_envOk",
+    "Marwood.Lemmas.Good.compiled_modelEnv",
+    "Marwood.Lemmas.Good.LoadedQ.codeOkH",
+    "Marwood.Lemmas.Good.Installs.garbage",
+    "Marwood.Lemmas.Good.Installs.entry_empty",
+    "Marwood.Lemmas.Good.immTF_congr",
+    "Marwood.Lemmas.Good.cellTF_congr",
+    "Marwood.Lemmas.Good.cput_thp_any",
+    "Marwood.Lemmas.Good.instStep_thp",
+    "Marwood.Lemmas.Good.CellF.kept",
+    "Marwood.Lemmas.Good.cput_kept",
+    "Marwood.Lemmas.Good.cput_hf_any",
+    "Marwood.Lemmas.Good.instStep_hf",
+    "Marwood.Lemmas.Good.instSteps_env",
+    "Marwood.Lemmas.Good.envInv_installsGarbage",
+    "Marwood.Lemmas.Good.prepare_envInv",
+    "Marwood.Lemmas.Good.halt_not_site",
+    "Marwood.Lemmas.Good.envInv_runEval",
+    "Marwood.Lemmas.Good.history_never_panics_installs_closed",
+    "Marwood.Lemmas.Good.immLoadedB_sound",
+    "Marwood.Lemmas.Good.envOkB_sound",
+    "Marwood.Lemmas.Good.codeOkHB_sound",
+    "Marwood.Lemmas.Good.installsB_sound",
+    "Marwood.Lemmas.Good.garbageB_sound",
+    "Marwood.Lemmas.Good.Demo.demo_installs",
+    "Marwood.Lemmas.Good.Demo.demo_prepared_envInv",
+    "Marwood.Lemmas.Good.Demo.demo_garbage_envInv",
+    "Marwood.Proofs.C06.prepare_envInv",
+    "Marwood.Proofs.C06.history_never_panics_from_initial",
+    "Marwood.Proofs.C06.history_never_panics_from_initial_listExt",
+] if t not in THEOREMS]
+META["note"] = META["note"] + (
+    " WAVE 12 (T06.6 for whole sessions from the invariants of the INITIAL state only): history_never_panics_machine_closed "
+    "asked VmOkP, EnvInv and SizeBounded of EVERY state in which a job starts (HistGoodE), because prepare_eval - compiler "
+    "and loader - is outside runHistory; re-establishing EnvInv was the law CompEnvInv. Now a theorem for the loader "
+    "relation Installs / InstallsGarbage of wave 11 (Lemmas/PrepareDefs.lean), strengthened IN PLACE with what EnvInv needs: "
+    "LoadedLam.envLen (the loaded environment map has the model's length - the order inside the internal / free groups is "
+    "HashSet iteration order, the length is not), ImmLoaded (heap-relative, part of LoadedQ e fuel h: the cell loaded for "
+    "quoted data does not point to a capturing lambda; the pointer loaded for `lambda id` points to a LOADING of code object "
+    "id whose IofEnvironment(k) entries carry the slot EnvironmentMap::new_from_iof computes - slot k of the parent object's "
+    "own map holds the same symbol), dataEB (a new pair / vector cell does not point to a capturing lambda), and for garbage "
+    "of a rejected form LamEnvOk (the two clauses of EnvInv about a code object, stated directly: no model object to relate "
+    "to). (1) COMPILER-MODEL THEOREMS (Lemmas/CompileEnvmap.lean, CompileEnvmap2.lean; induction on the fuel over the six "
+    "mutual compiler functions, same case skeleton as blkOK_all): compileTop_envCode - in every code object of compileTop e "
+    "fuel (any datum, any fuel) a code-object pointer occurs ONLY as the immediate of MOVIMM (lambda id) acc directly "
+    "followed by CLOSURE (EnvCode.lam: no PUSHIMM of a lambda, no MOVIMM of a lambda without the CLOSURE, quoted data are "
+    "datum cells), MOVIMM's immediate is quoted data / Void / a code object, PUSHIMM's immediate is an argument count or "
+    "quoted data (never an instruction pointer), every site's lambda id is in the table and each IofEnvironment entry of its "
+    "map names an entry of the enclosing object's map, each IofArgument n is below its formals (SiteP / ChildOf; "
+    "newEnvmap_childOf), and the top-level lambda and the entry lambda have EMPTY maps. (2) LoadedQ.codeOkH "
+    "(Lemmas/PrepareEnvCode.lean): for a code object prepare_eval installs for an ACCEPTED form the two environment clauses "
+    "(immTF, sitesFB) are CONSEQUENCES of (1) + LoadedLam + ImmLoaded - not part of the relation. The bound `slot < length "
+    "of the parent's map` comes from the loader's get_slot clause; ChildOf is its model-level counterpart (why get_slot "
+    "finds the symbol). (3) prepare_envInv (Lemmas/PrepareEnv.lean): IdleOk s, EnvInv s, acc not pointing to a capturing "
+    "lambda, Installs e fuel s s' entry, Small s'.heap => EnvInv (prepare s' entry); envInv_installsGarbage: the same for "
+    "the garbage of a rejected form. Proof: loader steps write no allocated cell (CellsKept), and every clause of Taint.HP "
+    "/ HF inspects only cells the collector follows from the cell it is stated of (cellTF_congr, CellF.kept), which are "
+    "allocated (HG.closed); instStep_thp / instStep_hf / instSteps_env. envInv_runEval: every evaluation leaves EnvInv and "
+    "an acc that does not point to a capturing lambda (halt_not_site: HALT is not the CLOSURE of a site; the error epilogue "
+    "wipes acc). (4) history_never_panics_from_initial: for a HistInstalls history (accepted forms: Installs + runEval; "
+    "rejected forms: InstallsGarbage + the Err arm's collection) from a state with IdleOk, NPInv, EnvInv (acc not pointing "
+    "to a capturing lambda: Undefined in a fresh VM), under the Ext laws (all theorems for listExtWith: "
+    "history_never_panics_from_initial_listExt has NO hypothesis about builtins) and the physical bounds RecSized, no "
+    "fault of the history is a panic other than apply's list-length guard. NO per-job hypothesis is left (HistGoodE, "
+    "CompEnvInv, EnvSlotsAlong gone). Non-vacuity: Demo.demo_prepared_envInv (prepare_envInv on Demo.demo_installs, agreeing "
+    "with the kernel-evaluated stateEnvB), a HistInstalls history on the demo machine whose prepare_eval allocated two code "
+    "objects, and refused mutants in Lemmas/PrepareEnvDemo.lean. TIE: the relation is checked, not proved, of the Rust "
+    "loader - stream prepare-installs of C07 replays every real prepare_eval with the STRONGER executable checker "
+    "(installsB / garbageB with loadedB's length clause, immLoadedB, dataEB, envOkB; installsB_sound): all 1326 calls of the "
+    "quick tier accepted (2658 over two seeds); 1300 hand-mutated accepted requests (environment map one entry longer / "
+    "shorter in a new code object) and 52 with an IofEnvironment slot shifted by 40 are all refused (lambda-envlen / "
+    "lambda-imm).")
